@@ -7,8 +7,8 @@ An interpreter for the bodies of widgets/list `List`, widgets/pager `Model` and 
   * `int` fields of the receiver (`d.index`, `d.offset`, `d.Offset`, `d.width`, `d.TotalHeight`, …,
     and `#d.items` = `len(d.items)`) live in `φ`, `int` locals in `ρ` (a slice of strings is its
     length: `#x`); `/` is Go's truncating division (division by zero: not evaluable = stuck);
-    `min`/`max` are list.go's own helpers — built in here, `Props/C19Wid.minmax_body_eq_model` shows
-    their interpreted bodies are `min`/`max`;
+    `min`/`max` are list.go's own helpers: a call `max(a, b)` is a call into the callee's interpreted body
+    (`Ro.fn2`; `Props/C19Wid.minmax_body_eq_model`: they compute `min`/`max`);
   * characters and cells (`vaxis.Character`, `vaxis.Cell`: bytes + width, the style is dropped) live
     in `χ`; a cell literal `vaxis.Cell{Character: c, …}` is its character;
   * a style is its `Attribute` (`vaxis.Style{}` = 0);
@@ -65,6 +65,8 @@ structure Ro where
   H    : Nat
   segs : List (List Ch)
   call : String → Option (M → Res)
+  /-- the package's own functions of two `int` parameters (`min`, `max`): name ↦ the value their interpreted body returns -/
+  fn2  : String → Option (Int → Int → Option Int)
 
 def consts : List (String × Int) := [("nil", 0), ("true", 1), ("false", 0), ("vaxis.AttrReverse", 1)]
 
@@ -86,42 +88,45 @@ def fieldOf (key : String) : Expr → Option Expr
   | .arg c (.pair (.var k) e) => if k = key then some e else fieldOf key c
   | _ => none
 
-def evI (m : M) : Expr → Option Int
+def evI (F2 : String → Option (Int → Int → Option Int)) (m : M) : Expr → Option Int
   | .var n => look m n
   | .int n => some (n : Int)
   | .lit "vaxis.Style{}" => some 0
-  | .arg (.call (.lit "vaxis.Style{}")) (.pair (.var "Attribute") a) => evI m a
-  | .un "-" a => (evI m a).map (fun x => - x)
-  | .bin "+" a b => do let x ← evI m a; let y ← evI m b; pure (x + y)
-  | .bin "-" a b => do let x ← evI m a; let y ← evI m b; pure (x - y)
-  | .bin "*" a b => do let x ← evI m a; let y ← evI m b; pure (x * y)
+  | .arg (.call (.lit "vaxis.Style{}")) (.pair (.var "Attribute") a) => evI F2 m a
+  | .un "-" a => (evI F2 m a).map (fun x => - x)
+  | .bin "+" a b => do let x ← evI F2 m a; let y ← evI F2 m b; pure (x + y)
+  | .bin "-" a b => do let x ← evI F2 m a; let y ← evI F2 m b; pure (x - y)
+  | .bin "*" a b => do let x ← evI F2 m a; let y ← evI F2 m b; pure (x * y)
   | .bin "/" a b => do
-      let x ← evI m a; let y ← evI m b
+      let x ← evI F2 m a; let y ← evI F2 m b
       if y = 0 then Option.none else pure (Int.tdiv x y)
-  | .arg (.arg (.call (.var "min")) a) b => do let x ← evI m a; let y ← evI m b; pure (min x y)
-  | .arg (.arg (.call (.var "max")) a) b => do let x ← evI m a; let y ← evI m b; pure (max x y)
   | .arg (.call (.var "len")) (.var x) =>
       if x = "d.lines" then some (m.lines.length : Int)
       else if x = m.lv ++ ".characters" then some (m.cur.length : Int)
       else look m ("#" ++ x)
+  -- a call of one of the package's own functions of two `int`s (`min`, `max`): the value its interpreted body returns
+  | .arg (.arg (.call (.var f)) a) b =>
+      match F2 f with
+      | some g => do let x ← evI F2 m a; let y ← evI F2 m b; g x y
+      | Option.none => Option.none
   | _ => Option.none
 
-def evB (m : M) : Expr → Option Bool
+def evB (F2 : String → Option (Int → Int → Option Int)) (m : M) : Expr → Option Bool
   | .var n => (look m n).map (fun x => x != 0)
-  | .un "!" a => (evB m a).map (fun x => !x)
+  | .un "!" a => (evB F2 m a).map (fun x => !x)
   | .bin "&&" a b => do
-      let x ← evB m a
-      if x then evB m b else pure false
+      let x ← evB F2 m a
+      if x then evB F2 m b else pure false
   | .bin "||" a b => do
-      let x ← evB m a
-      if x then pure true else evB m b
-  | .bin "<" a b => do let x ← evI m a; let y ← evI m b; pure (decide (x < y))
-  | .bin "<=" a b => do let x ← evI m a; let y ← evI m b; pure (decide (x ≤ y))
-  | .bin ">" a b => do let x ← evI m a; let y ← evI m b; pure (decide (x > y))
-  | .bin ">=" a b => do let x ← evI m a; let y ← evI m b; pure (decide (x ≥ y))
+      let x ← evB F2 m a
+      if x then pure true else evB F2 m b
+  | .bin "<" a b => do let x ← evI F2 m a; let y ← evI F2 m b; pure (decide (x < y))
+  | .bin "<=" a b => do let x ← evI F2 m a; let y ← evI F2 m b; pure (decide (x ≤ y))
+  | .bin ">" a b => do let x ← evI F2 m a; let y ← evI F2 m b; pure (decide (x > y))
+  | .bin ">=" a b => do let x ← evI F2 m a; let y ← evI F2 m b; pure (decide (x ≥ y))
   | .bin "==" (.var g) (.lit "\"\"") => (lookupC m.χ g).map (fun c => c.bytes.isEmpty)
-  | .bin "==" a b => do let x ← evI m a; let y ← evI m b; pure (decide (x = y))
-  | .bin "!=" a b => do let x ← evI m a; let y ← evI m b; pure (decide (x ≠ y))
+  | .bin "==" a b => do let x ← evI F2 m a; let y ← evI F2 m b; pure (decide (x = y))
+  | .bin "!=" a b => do let x ← evI F2 m a; let y ← evI F2 m b; pure (decide (x ≠ y))
   | .arg (.arg (.call (.var "strings.ContainsRune")) (.var g)) (.lit "'\\n'") => (lookupC m.χ g).map Ch.isNl
   | _ => Option.none
 
@@ -162,7 +167,7 @@ def collOf (R : Ro) (m : M) : Expr → Except Err (List Elem)
       | some cs => .ok (cs.map .ch)
       | Option.none => .error (.stuck "segment")
   | .bin "[:]" (.var x) (.pair lo .none) =>
-      match evI m lo, look m ("#" ++ x) with
+      match evI R.fn2 m lo, look m ("#" ++ x) with
       | some l, some n =>
         if 0 ≤ l ∧ l ≤ n then .ok ((List.range (n - l).toNat).map fun (i : Nat) => Elem.int (l + (i : Int)))
         else .error .panic
@@ -193,7 +198,7 @@ def atom (R : Ro) (m : M) (l : GoSyn.Line) : Res :=
     | some n => .ok ({ m with φ := [("d.index", 0), ("d.offset", 0), ("#d.items", n)] }, .ret [])
     | Option.none => .error (.stuck "items")
   | .returnS, e, _ =>
-    match evI m e with
+    match evI R.fn2 m e with
     | some v => .ok (m, .ret [v])
     | Option.none => .error (.stuck "return")
   | .varS, .var x, _ => ok (bind m x 0)
@@ -207,11 +212,11 @@ def atom (R : Ro) (m : M) (l : GoSyn.Line) : Res :=
       | .ok (m', _) => ok { m' with ρ := m.ρ, χ := m.χ, ls := m.ls, lv := m.lv, cur := m.cur, alias := m.alias }
   | .exprS, .arg (.call (.var "v0.Fill")) _, _ => ok { m with win := blank R.W R.H }
   | .exprS, .arg (.arg (.arg (.call (.var "v0.SetCell")) c) r) (.var x), _ =>
-    match evI m c, evI m r, lookupC m.χ x with
+    match evI R.fn2 m c, evI R.fn2 m r, lookupC m.χ x with
     | some cv, some rv, some ch => ok { m with win := setCell m.win cv rv ch }
     | _, _, _ => .error (.stuck "SetCell")
   | .exprS, .arg (.arg (.call (.var "v0.Println")) i) seg, _ =>
-    match evI m i, (fieldOf "Text" seg).bind (evI m), (fieldOf "Style" seg).bind (evI m) with
+    match evI R.fn2 m i, (fieldOf "Text" seg).bind (evI R.fn2 m), (fieldOf "Style" seg).bind (evI R.fn2 m) with
     | some iv, some item, some st =>
       ok { m with rows := if 0 ≤ iv ∧ iv < (R.H : Int) then m.rows ++ [⟨iv.toNat, item, st != 0⟩] else m.rows }
     | _, _, _ => .error (.stuck "Println")
@@ -247,7 +252,7 @@ def atom (R : Ro) (m : M) (l : GoSyn.Line) : Res :=
     | some c => ok (bindC m x c)
     | Option.none => .error (.stuck "cell")
   | .define, .var x, e =>
-    match evI m e with
+    match evI R.fn2 m e with
     | some v => ok (bind m x v)
     | Option.none => .error (.stuck "define")
   | .assign, .var x, .var y =>
@@ -258,15 +263,15 @@ def atom (R : Ro) (m : M) (l : GoSyn.Line) : Res :=
       | some v => ok (store m x v)
       | Option.none => .error (.stuck "assign")
   | .assign, .var x, e =>
-    match evI m e with
+    match evI R.fn2 m e with
     | some v => ok (store m x v)
     | Option.none => .error (.stuck "assign")
   | .addAssign, .var x, e =>
-    match look m x, evI m e with
+    match look m x, evI R.fn2 m e with
     | some cur, some v => ok (store m x (cur + v))
     | _, _ => .error (.stuck "+=")
   | .subAssign, .var x, e =>
-    match look m x, evI m e with
+    match look m x, evI R.fn2 m e with
     | some cur, some v => ok (store m x (cur - v))
     | _, _ => .error (.stuck "-=")
   | _, _, _ => .error (.stuck "statement")
@@ -307,11 +312,11 @@ def exec (R : Ro) : Stmt → Nat → M → Res
     | .ok (m', .norm) => exec R b f m'
     | r => r
   | .ite c t e, f, m =>
-    match evB m c with
+    match evB R.fn2 m c with
     | Option.none => .error (.stuck "if condition")
     | some true => exec R t f m
     | some false => exec R e f m
-  | .loop c body post, f, m => loopN (fun m => evB m c) (exec R body) (exec R post) f m
+  | .loop c body post, f, m => loopN (fun m => evB R.fn2 m c) (exec R body) (exec R post) f m
   | .rangeOver k v coll body, f, m =>
     match collOf R m coll with
     | .error e => .error e
@@ -323,6 +328,7 @@ def exec (R : Ro) : Stmt → Nat → M → Res
 /-! ### running the methods -/
 
 def noCall : String → Option (M → Res) := fun _ => Option.none
+def noFn : String → Option (Int → Int → Option Int) := fun _ => Option.none
 
 def m0 : M := ⟨[], [], [], [], [], "", [], [], [], []⟩
 
@@ -349,12 +355,24 @@ structure Bodies where
 
 /-- A function of two `int` parameters (`min`, `max`): the value returned. -/
 def runFun2 (body : Stmt) (a b : Int) : Except Err (Option Int) :=
-  match exec ⟨0, 0, [], noCall⟩ body 0 { m0 with ρ := [("v0", a), ("v1", b)] } with
+  match exec ⟨0, 0, [], noCall, noFn⟩ body 0 { m0 with ρ := [("v0", a), ("v1", b)] } with
   | .error e => .error e
   | .ok (_, .ret [v]) => .ok (some v)
   | .ok _ => .ok Option.none
 
+/-- The value an interpreted function of two `int`s returns (`none`: it panicked, got stuck or returned nothing). -/
+def fun2 (body : Stmt) (a b : Int) : Option Int :=
+  match runFun2 body a b with
+  | .ok (some v) => some v
+  | _ => Option.none
+
 /-! #### widgets/list -/
+
+/-- list.go's own `min` and `max`, as callees. -/
+def listFns (B : Bodies) : String → Option (Int → Int → Option Int) :=
+  fun n => if n = "min" then some (fun2 B.listMin) else if n = "max" then some (fun2 B.listMax) else Option.none
+
+def listRo (B : Bodies) (h : Nat) : Ro := ⟨0, h, [], noCall, listFns B⟩
 
 def listM (s : SimpleList.St) (k : Nat) : M :=
   { m0 with φ := [("d.index", s.index), ("d.offset", s.offset), ("#d.items", (s.n : Int))], ρ := [("#v0", (k : Int))] }
@@ -366,21 +384,21 @@ def listSt (m : M) : Option SimpleList.St :=
 
 /-- A method of `List` with window height `h` (and, for `SetItems`, `k` new items): the new state and the
     rows printed, or the panic; `none` = the interpreter got stuck. -/
-def runList (body : Stmt) (s : SimpleList.St) (h k : Nat) : Option (Except Unit (SimpleList.St × List Row)) :=
-  match exec ⟨0, h, [], noCall⟩ body 0 (listM s k) with
+def runList (B : Bodies) (body : Stmt) (s : SimpleList.St) (h k : Nat) : Option (Except Unit (SimpleList.St × List Row)) :=
+  match exec (listRo B h) body 0 (listM s k) with
   | .error .panic => some (.error ())
   | .error _ => Option.none
   | .ok (m, _) => (listSt m).map fun s' => .ok (s', m.rows)
 
 /-- `New(items)` with `k` items: the `List` returned. -/
 def runListNew (body : Stmt) (k : Nat) : Option SimpleList.St :=
-  match exec ⟨0, 0, [], noCall⟩ body 0 { m0 with ρ := [("#v0", (k : Int))] } with
+  match exec ⟨0, 0, [], noCall, noFn⟩ body 0 { m0 with ρ := [("#v0", (k : Int))] } with
   | .ok (m, .ret []) => listSt m
   | _ => Option.none
 
 /-- `Index()`. -/
 def runListIndex (body : Stmt) (s : SimpleList.St) : Option Int :=
-  match exec ⟨0, 0, [], noCall⟩ body 0 (listM s 0) with
+  match exec ⟨0, 0, [], noCall, noFn⟩ body 0 (listM s 0) with
   | .ok (_, .ret [v]) => some v
   | _ => Option.none
 
@@ -399,16 +417,16 @@ def pagerSt (text : List Ch) (m : M) : Option Pager.St :=
 
 /-- `line.append` as a callee. -/
 def appendCallee (B : Bodies) : M → Res :=
-  fun m => exec ⟨0, 0, [], noCall⟩ B.lineAppend 0 m
+  fun m => exec ⟨0, 0, [], noCall, noFn⟩ B.lineAppend 0 m
 
 def lineCalls (B : Bodies) : String → Option (M → Res) :=
   fun n => if n = "line.append" then some (appendCallee B) else Option.none
 
 def layoutCallee (B : Bodies) (segs : List (List Ch)) : M → Res :=
-  fun m => exec ⟨0, 0, segs, lineCalls B⟩ B.pagerLayout 0 m
+  fun m => exec ⟨0, 0, segs, lineCalls B, noFn⟩ B.pagerLayout 0 m
 
 def pagerRo (B : Bodies) (segs : List (List Ch)) (w h : Nat) : Ro :=
-  ⟨w, h, segs, fun n => if n = "d.Layout" then some (layoutCallee B segs) else if n = "line.append" then some (appendCallee B) else Option.none⟩
+  ⟨w, h, segs, fun n => if n = "d.Layout" then some (layoutCallee B segs) else if n = "line.append" then some (appendCallee B) else Option.none, noFn⟩
 
 /-- A method of the pager (`Draw` with a `w × h` window, `Layout`, `ScrollDown`, `ScrollUp`) on the
     `Segments` whose characters are `segs`: the new state and the window. -/
@@ -435,7 +453,7 @@ def barRows (win : Win) : List Nat :=
 
 /-- `Draw` of the scrollbar into a `w × h` window: the rows that received the bar. -/
 def runBar (body : Stmt) (total view top : Int) (w h fuel : Nat) (charEmpty : Bool) : Option (List Nat) :=
-  match exec ⟨w, h, [], noCall⟩ body fuel (barM total view top w h charEmpty) with
+  match exec ⟨w, h, [], noCall, noFn⟩ body fuel (barM total view top w h charEmpty) with
   | .error _ => Option.none
   | .ok (m, _) => some (barRows m.win)
 
